@@ -169,6 +169,7 @@ def new_specs():
 def replayer(obl, model):
     """serial kernels compiled with NUMBA_BOUNDSCHECK=1 (set by the driver), parallel ones as py_func, on boundary inputs"""
     fn = (obl.fn if obl is not None else '') or ''
+    replayer.calls = 0
     try:
         if 'linear_interp' in fn or obl is None:
             from abacusnbody.analysis.power_spectrum import linear_interp
@@ -176,14 +177,17 @@ def replayer(obl, model):
             y = np.arange(4, dtype=np.float64) * 2
             for xd in (0.0, 1.5, 2.999999, 3.0, 3.5, -1.0):
                 linear_interp(xd, x, y)
+                replayer.calls += 1
         if 'msum_core' in fn or obl is None:
             from abacusnbody.hod.menv import msum_core
             out = np.zeros(2)
             msum_core.py_func(out, np.ones(3), np.array([0, 2, 1, 1]), np.array([0, 2, 4]), 1.0, 1)
+            replayer.calls += 1
         if '_wrap_inplace' in fn or '_zeros' in fn or obl is None:
             from abacusnbody.analysis.tsc import _wrap_inplace, _zeros_parallel
             _wrap_inplace.py_func(np.array([[-0.5, 1.5, 1.0], [0.0, 0.999, 1.999]]), 1.0)
             _zeros_parallel.py_func((2, 3, 1))
+            replayer.calls += 2
         for mod, other in ((C19, 'cumsum'), (C04, '_unpack_'), (C15, 'pack9'), (C06, 'scatter'), (C06, 'cic'), (C17, 'partition'), (C08, 'bin_k'), (C07, '_tsc_parallel')):
             if other in fn:
                 rep = getattr(mod, 'replayer', None) or getattr(mod, 'replay_parallel', None)
@@ -213,7 +217,7 @@ def check(run):
     ok, detail = replayer(None, None)
     if ok:
         run.bounded_violation('kernel reads or writes out of bounds on a boundary input', {}, detail)
-    run.add_bounded('boundary inputs through the bounds-checked / interpreted kernels', 12, 12,
+    run.add_bounded('boundary inputs through the bounds-checked / interpreted kernels', replayer.calls, replayer.calls,
                     'linear_interp at/below/above the abscissa range, msum_core, _wrap_inplace, _zeros_parallel (others: see the bounded parts of C04, C06, C08, C15, C17, C19)',
                     [dict(kernel='linear_interp', xd=3.0, x=[0, 1, 2, 3])])
     run.notes.append('gen_cent / gen_sats (box and light-cone observer) are under the functional contracts of contracts/hodk.py, whose bounds / prange obligations are discharged here')
